@@ -1,3 +1,4 @@
+import PewModel.Imzml
 /-!
 # C17 — the fast imzML parser against the XML parser (`pewlib.io.imzml.fast_parse_imzml`)
 
@@ -43,17 +44,20 @@ inductive Item
   | cv (acc : String) (val : Option String)   -- `<cvParam … accession="acc" … value="val"/>`
   | ref (r : String)                          -- `<referenceableParamGroupRef ref="r"/>`
   | misc                                      -- `<userParam …/>`, `<binary/>`, comments
-  deriving Repr
+  deriving DecidableEq, Repr
 
 structure Group where
   id : String
   items : List Item
+  deriving DecidableEq
 
 structure Settings where
   items : List Item
+  deriving DecidableEq
 
 structure Arr where
   items : List Item
+  deriving DecidableEq
 
 structure Spec where
   items : List Item            -- children of `<spectrum>` before `<scanList>`
@@ -61,10 +65,12 @@ structure Spec where
   scans : List (List Item)     -- children of every `<scan>`
   arrays : List Arr
   tail : List Item             -- children of `<spectrum>` after `<binaryDataArrayList>`
+  deriving DecidableEq
 
 /-- a section the parsers do not look into (`<fileDescription>`, `<softwareList>`, …) -/
 structure Sect where
   items : List Item
+  deriving DecidableEq
 
 structure Doc where
   decl : Bool
@@ -76,6 +82,7 @@ structure Doc where
   groups : List Group
   settings : List Settings
   spectra : List Spec
+  deriving DecidableEq
 
 /-! ## what both parsers build -/
 
@@ -174,13 +181,20 @@ def renderSpectra (cls : String → Bool) (d : Doc) : List Line :=
   [.opn .other "", .opn .spectrumList ""] ++ d.spectra.flatMap (renderSpec cls)
     ++ [.cls .spectrumList, .cls .other]
 
-def render (cls : String → Bool) (d : Doc) : List Line :=
+/-- everything before the `<run>` line: declaration, `<mzML>`, noise sections, the two lists -/
+def renderHead (cls : String → Bool) (d : Doc) : List Line :=
   (if d.decl then [.misc] else []) ++ [.opn .other ""] ++ d.pre.flatMap (renderSect cls)
     ++ (if d.settingsFirst
         then renderSettingsList cls d ++ d.mid1.flatMap (renderSect cls) ++ renderGroups cls d
         else renderGroups cls d ++ d.mid1.flatMap (renderSect cls) ++ renderSettingsList cls d)
-    ++ d.mid2.flatMap (renderSect cls) ++ renderSpectra cls d ++ d.post.flatMap (renderSect cls)
-    ++ [.cls .other]
+    ++ d.mid2.flatMap (renderSect cls)
+
+/-- everything after `</run>` -/
+def renderTail (cls : String → Bool) (d : Doc) : List Line :=
+  d.post.flatMap (renderSect cls) ++ [.cls .other]
+
+def render (cls : String → Bool) (d : Doc) : List Line :=
+  renderHead cls d ++ (renderSpectra cls d ++ renderTail cls d)
 
 /-! ## the XML parser: tree queries -/
 
@@ -528,11 +542,123 @@ def SpecOk (cls : String → Bool) (s : Spec) : Prop :=
   optVal cls accTic (s.items ++ s.tail) ∧
   ∀ a ∈ s.arrays, ArrOk cls a
 
-/-- the layout of DESIGN.md §5.17 as a predicate on documents: the two array groups are named
+/-! ### attribute text: what ElementTree decodes and the regular expression does not -/
+
+/-- characters an attribute text of the layout does not contain: `&` starts an entity or character
+reference (ElementTree decodes it, the regular expression sees the raw text), `"` ends the attribute,
+`<` is not well-formed XML, and a literal tab / line break is turned into a blank by the XML parser's
+attribute-value normalisation (and a line break ends the line for the text parser) -/
+def badChar (c : Char) : Bool :=
+  c == '&' || c == '"' || c == '<' || c == '\t' || c == '\n' || c == '\r'
+
+def textOk (s : String) : Bool := s.toList.all (fun c => !badChar c)
+
+/-- the accession is matched completely by `I?MS:\d+` (ASCII digits; `\d` also accepts other Unicode
+decimal digits, which both parsers would read alike) -/
+def accOk (a : String) : Bool :=
+  match a.toList with
+  | 'M' :: 'S' :: ':' :: ds => !ds.isEmpty && ds.all Char.isDigit
+  | 'I' :: 'M' :: 'S' :: ':' :: ds => !ds.isEmpty && ds.all Char.isDigit
+  | _ => false
+
+def itemOk : Item → Bool
+  | .cv a v => accOk a && (match v with | some s => textOk s | none => true)
+  | .ref r => textOk r
+  | .misc => true
+
+def itemsOk (l : List Item) : Bool := l.all itemOk
+
+def specTextOk (s : Spec) : Bool :=
+  itemsOk s.items && itemsOk s.scanlist && s.scans.all itemsOk && s.arrays.all (fun a => itemsOk a.items)
+    && itemsOk s.tail
+
+def sectsOk (l : List Sect) : Bool := l.all (fun s => itemsOk s.items)
+
+def textOkDoc (d : Doc) : Bool :=
+  sectsOk d.pre && sectsOk d.mid1 && sectsOk d.mid2 && sectsOk d.post
+    && d.groups.all (fun g => textOk g.id && itemsOk g.items)
+    && d.settings.all (fun s => itemsOk s.items) && d.spectra.all specTextOk
+
+/-- every cv value, every ref and every group id of the document is free of `&`, `"`, `<`, tab and line
+breaks, and every accession has the shape `MS:digits` / `IMS:digits` -/
+def TextOk (d : Doc) : Prop := textOkDoc d = true
+
+instance (d : Doc) : Decidable (TextOk d) := by unfold TextOk; infer_instance
+
+def hexVal (c : Char) : Option Nat :=
+  if '0' ≤ c ∧ c ≤ '9' then some (c.toNat - 48)
+  else if 'a' ≤ c ∧ c ≤ 'f' then some (c.toNat - 87)
+  else if 'A' ≤ c ∧ c ≤ 'F' then some (c.toNat - 55)
+  else none
+
+def decVal (c : Char) : Option Nat := if '0' ≤ c ∧ c ≤ '9' then some (c.toNat - 48) else none
+
+/-- value of a digit string in the given base; `none` when empty or a character is not a digit -/
+def digitsVal (base : Nat) (dig : Char → Option Nat) : List Char → Option Nat
+  | [] => none
+  | c :: r => r.foldl (fun acc c => match acc, dig c with
+                                    | some a, some v => some (a * base + v)
+                                    | _, _ => none) (dig c)
+
+/-- the text between `&` and `;`: the five predefined entities, decimal and hexadecimal character
+references.  `none`: not a reference ElementTree knows (it raises ParseError there) -/
+def decodeRef : List Char → Option Char
+  | ['a', 'm', 'p'] => some '&'
+  | ['l', 't'] => some '<'
+  | ['g', 't'] => some '>'
+  | ['q', 'u', 'o', 't'] => some '"'
+  | ['a', 'p', 'o', 's'] => some '\''
+  | '#' :: 'x' :: h => (digitsVal 16 hexVal h).map Char.ofNat
+  | '#' :: ds => (digitsVal 10 decVal ds).map Char.ofNat
+  | _ => none
+
+/-- attribute-value normalisation of a literal character -/
+def normWs (c : Char) : Char := if c == '\t' || c == '\n' || c == '\r' then ' ' else c
+
+/-- the decoder: `pend = some acc` while the name of a reference is being collected (reversed).
+A reference that is unknown or not terminated is kept as raw text (ElementTree raises ParseError on
+such a document; it is outside what is modelled) -/
+def xmlDecodeL : Option (List Char) → List Char → List Char
+  | none, [] => []
+  | some acc, [] => '&' :: acc.reverse
+  | none, c :: r => if c = '&' then xmlDecodeL (some []) r else normWs c :: xmlDecodeL none r
+  | some acc, c :: r =>
+    if c = ';' then
+      match decodeRef acc.reverse with
+      | some ch => ch :: xmlDecodeL none r
+      | none => ('&' :: acc.reverse ++ [';']) ++ xmlDecodeL none r
+    else xmlDecodeL (some (c :: acc)) r
+
+/-- the attribute text ElementTree hands to `from_xml_element` for the raw text `s` of the file -/
+def xmlDecode (s : String) : String := String.ofList (xmlDecodeL none s.toList)
+
+def xmlItem : Item → Item
+  | .cv a v => .cv a (v.map xmlDecode)
+  | .ref r => .ref (xmlDecode r)
+  | .misc => .misc
+
+def xmlItems (l : List Item) : List Item := l.map xmlItem
+
+def xmlSect (s : Sect) : Sect := { items := xmlItems s.items }
+
+def xmlSpecDoc (s : Spec) : Spec :=
+  { items := xmlItems s.items, scanlist := xmlItems s.scanlist, scans := s.scans.map xmlItems,
+    arrays := s.arrays.map (fun a => { items := xmlItems a.items }), tail := xmlItems s.tail }
+
+/-- the document as the XML parser sees it: entity and character references in every cv value, ref and
+group id decoded (accessions are left alone: `TextOk` fixes their shape) -/
+def xmlDoc (d : Doc) : Doc :=
+  { decl := d.decl, settingsFirst := d.settingsFirst,
+    pre := d.pre.map xmlSect, mid1 := d.mid1.map xmlSect, mid2 := d.mid2.map xmlSect, post := d.post.map xmlSect,
+    groups := d.groups.map (fun g => { id := xmlDecode g.id, items := xmlItems g.items }),
+    settings := d.settings.map (fun s => { items := xmlItems s.items }),
+    spectra := d.spectra.map xmlSpecDoc }
+
+/-- the structural part of the layout (DESIGN.md §5.17): the two array groups are named
 `mzArray` / `intensities` and declare exactly one binary type; every accession a parser reads occurs
 at most once inside its enclosing element, where the XML parser looks for it, with a value the
 regular expression accepts; at least one `<scanSettings>` and one `<spectrum>` -/
-def Layout (cls : String → Bool) (d : Doc) : Prop :=
+def LayoutCore (cls : String → Bool) (d : Doc) : Prop :=
   (d.groups.filter (fun g => g.id = "mzArray")).length = 1 ∧
   (d.groups.filter (fun g => g.id = "intensities")).length = 1 ∧
   (∀ g ∈ d.groups, (g.id = "mzArray" ↔ accMzArray ∈ accs g.items)) ∧
@@ -543,8 +669,87 @@ def Layout (cls : String → Bool) (d : Doc) : Prop :=
   d.spectra.isEmpty = false ∧
   (∀ s ∈ d.spectra, SpecOk cls s)
 
-instance (cls : String → Bool) (d : Doc) : Decidable (Layout cls d) := by
-  unfold Layout SpecOk ArrOk SettingsOk GroupOk optVal oneVal
+instance (cls : String → Bool) (d : Doc) : Decidable (LayoutCore cls d) := by
+  unfold LayoutCore SpecOk ArrOk SettingsOk GroupOk optVal oneVal
   infer_instance
+
+/-- the layout as a predicate on documents: `LayoutCore`, and the attribute texts are plain
+(`TextOk`: no entity or character references, no quote, no `<`; accessions of the shape the regular
+expression matches completely), so that the raw text the regular expression reads is the text
+ElementTree decodes -/
+def Layout (cls : String → Bool) (d : Doc) : Prop := LayoutCore cls d ∧ TextOk d
+
+instance (cls : String → Bool) (d : Doc) : Decidable (Layout cls d) := by
+  unfold Layout
+  infer_instance
+
+/-! ## where the progress callback is invoked -/
+
+/-- 0-based index, in `render cls d`, of the line whose reading is followed by invocation `k` of the
+callback: the `<spectrumList …>` line for the first spectrum (the main loop's `"<spectrum"` prefix
+test matches it; the first `<spectrum …>` line is then swallowed inside `parse_spectrum`), the
+`<spectrum …>` line of spectrum `k` for every later one -/
+def callLine (cls : String → Bool) (d : Doc) (k : Nat) : Nat :=
+  (renderHead cls d).length + 1 +
+    (if k = 0 then 0 else 1 + ((d.spectra.take k).map (fun s => (renderSpec cls s).length)).sum)
+
+/-- the file positions handed to the callback, from the byte lengths of the lines: invocation `k` gets
+the offset just after line `callLine k` -/
+def callPositions (cls : String → Bool) (d : Doc) (lens : List Nat) : List Nat :=
+  (List.range d.spectra.length).map (fun k => (lens.take (callLine cls d k + 1)).sum)
+
+/-! the same lists in one pass (what the driver evaluates for documents with thousands of spectra;
+equal to the definitions above: `callPositionsFast_eq`) -/
+
+/-- index of the `<spectrum …>` line of every spectrum of `ss` when the first one sits at index `i` -/
+def specStarts (cls : String → Bool) (i : Nat) : List Spec → List Nat
+  | [] => []
+  | s :: r => i :: specStarts cls (i + (renderSpec cls s).length) r
+
+def callLinesFast (cls : String → Bool) (d : Doc) : List Nat :=
+  match d.spectra with
+  | [] => []
+  | s0 :: rest =>
+    let h := (renderHead cls d).length
+    (h + 1) :: specStarts cls (h + 2 + (renderSpec cls s0).length) rest
+
+/-- running totals: entry `i` is `acc` plus the sum of the first `i + 1` lengths -/
+def prefixSums : Nat → List Nat → List Nat
+  | _, [] => []
+  | acc, n :: r => (acc + n) :: prefixSums (acc + n) r
+
+def callPositionsFast (cls : String → Bool) (d : Doc) (lens : List Nat) : List Nat :=
+  let ps := (prefixSums 0 lens).toArray
+  let total := lens.sum
+  (callLinesFast cls d).map (fun i => (ps[i]?).getD total)
+
+/-! ## the images both models give -/
+
+/-- the conversions between the parsed text and the numbers the extraction works on, left opaque:
+`int(…)`, `float(…)` and `spec.get_binary_data(params.id, params.dtype, fp)` (the array of group `g`
+read at `offsets[g.id]`, `lengths[g.id]` of the spectrum) -/
+structure Bin where
+  int : String → Nat
+  float : String → Rat
+  read : PGroup → SpecInfo → List Rat
+
+def toSpectrum (B : Bin) (m : Model) (s : SpecInfo) : Pew.Imzml.Spectrum :=
+  { x := B.int s.x, y := B.int s.y, tic := s.tic.map B.float, mz := B.read m.mz s, it := B.read m.inten s }
+
+/-- the spectra in document order; the parsers' dictionary keeps the last one per position, which is
+what the placement loop (`Pew.Imzml.place`) does with the list -/
+def spectraOf (B : Bin) (m : Model) : List Pew.Imzml.Spectrum := m.spectra.map (toSpectrum B m)
+
+/-- `ImzML.image_size` -/
+def imageSizeOf (B : Bin) (m : Model) : Nat × Nat :=
+  Pew.Imzml.imageSize (m.scan.size.map (fun p => (B.int p.1, B.int p.2))) (spectraOf B m)
+
+/-- `ImzML.extract_tic()` as a table of shape `(Y, X)`; `none` = NaN -/
+def ticImageOf (B : Bin) (m : Model) : List (List (Option Rat)) :=
+  Pew.Imzml.tabulate (imageSizeOf B m) (Pew.Imzml.ticImage (spectraOf B m))
+
+/-- `ImzML.extract_masses(masses, width)` as a table of shape `(Y, X)` of window sums -/
+def massImageOf (B : Bin) (m : Model) (masses : List Rat) (w : Pew.Imzml.Width) : List (List (Option (List Rat))) :=
+  Pew.Imzml.tabulate (imageSizeOf B m) (Pew.Imzml.extractImage (spectraOf B m) masses w)
 
 end Pew.FastParse
